@@ -1,5 +1,7 @@
 CONSTANTS
   Tier = "q"
+  PointerReceiverMarshaller <- NoDeviation
+  Families <- AllFamilies
 INIT TInit
 NEXT TNext
 CONSTRAINT HighWater
